@@ -32,6 +32,13 @@ class Unsupported(Exception):
     pass
 
 
+class ResolveInt(Exception):
+    """the type of `let x = <unsuffixed literal>` has been determined by a later use"""
+    def __init__(self, ident, ty):
+        Exception.__init__(self, "unresolved integer literal")
+        self.ident, self.ty = ident, ty
+
+
 def unsupported(what, tok=None):
     raise Unsupported("%s%s" % (what, " (line %d)" % tok.line if tok is not None else ""))
 
@@ -200,6 +207,9 @@ class Parser:
                 neg = True
             v, suf = parse_int_literal(self.next().text)
             return ("p_lit", -v if neg else v)
+        if p.kind == "str" and not p.text.startswith("b"):
+            self.next()
+            return ("p_str", unescape_str(p.text[1:-1], p))
         if p.kind == "id":
             if p.text in ("true", "false"):
                 self.next()
@@ -314,6 +324,13 @@ class Parser:
         return self.parse_assign(no_struct, stmt)
 
     def parse_assign(self, no_struct, stmt=False):
+        if self.at(".."):
+            p0 = self.next()
+            q = self.peek()
+            rhs = None
+            if q is not None and not (q.kind == "op" and q.text in ("]", ")", "}", ";", ",", "{", "=>")):
+                rhs = self.parse_binary(0, no_struct)
+            return ("range", None, rhs)
         lhs = self.parse_binary(0, no_struct, stmt)
         p = self.peek()
         if p is not None and p.kind == "op" and p.text in ASSIGN_OPS:
@@ -321,11 +338,18 @@ class Parser:
             rhs = self.parse_assign(no_struct)
             return ("assign", p.text, lhs, rhs)
         if p is not None and p.kind == "op" and p.text in ("..", "..="):
-            unsupported("range expression", p)
+            self.next()
+            q = self.peek()
+            rhs = None
+            if q is not None and not (q.kind == "op" and q.text in ("]", ")", "}", ";", ",", "{", "=>")):
+                rhs = self.parse_binary(0, no_struct)
+            if p.text == "..=":
+                unsupported("inclusive range", p)
+            return ("range", lhs, rhs)
         return lhs
 
     def parse_binary(self, min_prec, no_struct, stmt=False):
-        lhs = self.parse_unary(no_struct)
+        lhs = self.parse_unary(no_struct, stmt)
         if stmt and lhs[0] in ("if", "match", "loop", "while", "for", "block", "unsafe"):
             return lhs                       # a block-like expression at statement start ends the statement
         while True:
@@ -350,7 +374,7 @@ class Parser:
                 unsupported("chained comparison", p)
             lhs = ("binary", p.text, lhs, rhs)
 
-    def parse_unary(self, no_struct):
+    def parse_unary(self, no_struct, stmt=False):
         p = self.peek()
         if p is None:
             unsupported("expression expected")
@@ -363,7 +387,10 @@ class Parser:
                 self.next()
             e = ("unary", "&", self.parse_unary(no_struct))
             return ("unary", "&", e) if p.text == "&&" else e
-        return self.parse_postfix(self.parse_primary(no_struct), no_struct)
+        prim = self.parse_primary(no_struct)
+        if stmt and prim[0] in ("if", "match", "loop", "while", "for", "block", "unsafe"):
+            return prim                      # a block-like expression at statement start takes no postfix operator
+        return self.parse_postfix(prim, no_struct)
 
     def parse_args(self):
         """at `(`"""
@@ -427,6 +454,11 @@ class Parser:
             if p.text.startswith("b"):
                 unsupported("byte string literal", p)
             return ("lit_str", unescape_str(p.text[1:-1], p))
+        if p.kind == "chr" and not p.text.startswith("b"):
+            body = unescape_str(p.text[1:-1], p)
+            if len(body) != 1:
+                unsupported("char literal `%s`" % p.text, p)
+            return ("lit_char", ord(body))
         if p.kind in ("rstr", "chr", "life"):
             unsupported("literal `%s`" % p.text, p)
         if p.kind == "op":
@@ -450,7 +482,21 @@ class Parser:
                 self.i -= 1
                 return self.parse_block()
             if p.text == "|" or p.text == "||":
-                unsupported("closure", p)
+                params = []
+                if p.text == "|":
+                    while not self.at("|"):
+                        pat = self.parse_pattern()
+                        if self.at(":"):
+                            self.next()
+                            self.parse_type()
+                        params.append(pat)
+                        if self.at(","):
+                            self.next()
+                    self.expect("|")
+                if self.at("->"):
+                    unsupported("closure with a declared result type", p)
+                body = self.parse_expr(no_struct)
+                return ("closure", params, body, p.line)
             unsupported("expression starting with `%s`" % p.text, p)
         # identifiers / keywords
         t = p.text
@@ -641,6 +687,9 @@ def unescape_str(s, tok):
             m = {"n": "\n", "t": "\t", "\\": "\\", '"': '"', "'": "'", "0": "\0", "r": "\r"}
             if d in m:
                 out.append(m[d])
+            elif d == "x" and re.match(r"^[0-7][0-9a-fA-F]$", s[i + 1:i + 3]):
+                out.append(chr(int(s[i + 1:i + 3], 16)))
+                i += 2
             else:
                 unsupported("string escape \\%s" % d, tok)
         else:
@@ -743,6 +792,30 @@ class Source:
                         if name not in self._structs and not self._hooked(toks, i):
                             self._structs[name] = fields
         return self._structs
+
+    def enums(self):
+        """name -> [variant names] for the enums whose variants are all unit variants"""
+        if getattr(self, "_enums", None) is None:
+            self._enums = {}
+            for f in self.files():
+                toks = self.toks(f)
+                for i, t in enumerate(toks):
+                    if t.kind == "id" and t.text == "enum" and i + 2 < len(toks) and toks[i + 1].kind == "id" \
+                            and toks[i + 2].text == "{":
+                        c = match_group(toks, i + 2)
+                        names = []
+                        ok = True
+                        for lo, hi in split_fields(toks, i + 3, c):
+                            j = lo
+                            while j < hi and toks[j].text == "#":
+                                j = match_group(toks, j + 1) + 1
+                            if hi - j != 1 or toks[j].kind != "id":
+                                ok = False
+                                break
+                            names.append(toks[j].text)
+                        if ok and names and toks[i + 1].text not in self._enums and not self._hooked(toks, i):
+                            self._enums[toks[i + 1].text] = names
+        return self._enums
 
     def impl_blocks(self, f):
         """[(self_type_name, open_idx, close_idx)] for the non-hook impl blocks of file f"""
@@ -937,8 +1010,14 @@ def gty(t):
     """Gallina text of a type"""
     if is_int(t) or t == "ptr":
         return "Z"
-    if t in ("f64", "bool", "unit", "rvalue", "byte"):
+    if t in ("f64", "bool", "unit", "rvalue", "byte", "xvalue"):
         return t
+    if t == "char":
+        return "Z"
+    if t == "xelem":
+        return "(xvalue * string)"
+    if t == "fx":
+        return "stack_fx"
     if t == "str":
         return "list byte"
     if t == "msg":
@@ -958,6 +1037,13 @@ def gty(t):
             return "(" + " * ".join(gatom(gty(x)) for x in t[1]) + ")"
         if t[0] == "tyvar":
             return t[1]
+        if t[0] == "enum":
+            return "Z"
+        if t[0] == "sval":
+            fs = [gatom(gty(ft)) for _, ft in t[2]]
+            return fs[0] if len(fs) == 1 else "(" + " * ".join(fs) + ")"
+        if t[0] == "result2":
+            return "(%s + %s)" % (gatom(gty(t[1])), gatom(gty(t[2])))
     unsupported("no Gallina type for %r" % (t,))
 
 
@@ -970,6 +1056,10 @@ def ty_eq(a, b):
         return a[1] == b[1] and a[2] == b[2]          # usize = u64, isize = i64 as far as values go
     if isinstance(a, tuple) and isinstance(b, tuple) and a[0] == b[0] and a[0] in ("opt", "list", "result"):
         return ty_eq(a[1], b[1])
+    if isinstance(a, tuple) and isinstance(b, tuple) and a[0] == b[0] == "sval":
+        return a[1] == b[1]
+    if isinstance(a, tuple) and isinstance(b, tuple) and a[0] == b[0] == "result2":
+        return ty_eq(a[1], b[1]) and ty_eq(a[2], b[2])
     if isinstance(a, tuple) and isinstance(b, tuple) and a[0] == b[0] == "tuple":
         return len(a[1]) == len(b[1]) and all(ty_eq(x, y) for x, y in zip(a[1], b[1]))
     return a == b
@@ -985,6 +1075,10 @@ f_is_sign_negative f64_lit byte_Z list_len list_index str_is_char_boundary str_e
 for_in f64 fadd fsub fmul fdiv fneg fabs feqb fltb fgtb fleb fgeb frem ftrunc cast_int to_i64 to_isize to_u32 to_u8
 to_usize to_u64 f64_of_Z f64_of_bits bits_of_f64 f64_zero round_ratio negb andb orb xorb fst snd pair Some None
 option list nat bool true false tt unit Z N byte string inl inr Empty_set fuel O S
+xvalue XNone XBoolean XNumber XObjString XObjRange XObjVec XOther new_obj_string x_try_as_obj_string x_try_as_number
+x_try_as_obj_vec x_try_into_bool stack_fx FxPop FxPoke FxPush show_int z_range str_is_empty str_slice_z str_chars char_is_ascii_alphabetic
+char_is_ascii_digit char_is_ascii_hexdigit str_lit str_starts_with str_ends_with str_replace enum_index forallb map
+length rev firstn skipn seq enumerate_z list_pop combine
 """.split())
 
 
@@ -1010,6 +1104,16 @@ def canonical_order(x, y):
     def size(t):
         return len(re.findall(r"[A-Za-z_0-9.']+", t))
     return (y, x) if size(y) < size(x) else (x, y)
+
+
+def str_literal(txt):
+    """a Rust string literal used as a `&str` VALUE: bytes"""
+    if txt == "":
+        return "(str_lit \"\"%string)"
+    if all(32 <= ord(ch) <= 126 for ch in txt):
+        return "(str_lit %s)" % coq_string(txt)
+    bs = txt.encode("utf-8")
+    return "[" + "; ".join('"%03d"%%byte' % b for b in bs) + "]"
 
 
 def zlit(v):
@@ -1121,10 +1225,10 @@ def m_print(m, monadic, ind):
 
 class V:
     """value of an expression: a pure Gallina term with its type, or a PLACE (struct-typed path)"""
-    __slots__ = ("term", "ty", "path", "root_ast")
+    __slots__ = ("term", "ty", "path", "root_ast", "shown")
 
-    def __init__(self, term, ty, path=None):
-        self.term, self.ty, self.path = term, ty, path
+    def __init__(self, term, ty, path=None, shown=None):
+        self.term, self.ty, self.path, self.shown = term, ty, path, shown
 
 
 class Ctl:
@@ -1207,6 +1311,52 @@ class Unit:
         self.fns = {}             # (impl, fn) -> FnOut   (whole-function translations only)
         self.by_name = {}
 
+    def enum_const(self, ename, vname):
+        """`Enum::Variant` as its discriminant (declaration order), through a named constant"""
+        key = "%s::%s" % (ename, vname)
+        if key not in self.const_names:
+            names = self.src.enums()[ename]
+            lst = "%s_variants" % ename
+            if lst not in self.const_names:
+                self.consts.append((lst, "list string", "[%s]" % "; ".join(coq_string(n) for n in names)))
+                self.const_names[lst] = V(lst, "msglist")
+            g = mangle("%s_%s" % (ename, vname))
+            self.consts.append((g, "Z", "enum_index %s %s 0" % (lst, coq_string(vname))))
+            self.const_names[key] = V(g, ("enum", ename))
+        return self.const_names[key]
+
+    def const_eval(self, e, files):
+        """value of an integer constant expression (literals, T::MAX/MIN, other consts, + - * /, widening `as`)"""
+        k = e[0]
+        if k == "paren":
+            return self.const_eval(e[1], files)
+        if k == "lit_int":
+            return e[1]
+        if k == "cast":
+            v = self.const_eval(e[1], files)
+            t = e[2]
+            if v is None or t[0] != "tpath" or t[1] not in INT_TYPES:
+                return None
+            lo, hi = int_range(T_int(t[1]))
+            return v if lo <= v <= hi else None
+        if k == "path":
+            segs = e[1]
+            if len(segs) == 2 and segs[0] in INT_TYPES and segs[1] in ("MAX", "MIN"):
+                lo, hi = int_range(T_int(segs[0]))
+                return hi if segs[1] == "MAX" else lo
+            hit = self.src.find_const(files, segs[-1])
+            if hit is None:
+                return None
+            f2, _, lo, hi = hit
+            p2 = Parser(self.src.toks(f2), lo, hi)
+            return self.const_eval(p2.parse_expr(), files)
+        if k == "binary" and e[1] in ("+", "-", "*"):
+            a, b = self.const_eval(e[2], files), self.const_eval(e[3], files)
+            if a is None or b is None:
+                return None
+            return a + b if e[1] == "+" else a - b if e[1] == "-" else a * b
+        return None
+
     def const(self, files, name):
         if name in self.const_names:
             return self.const_names[name]
@@ -1223,7 +1373,15 @@ class Unit:
         out = []
         m = cx.tr_expr(e, {}, ty, None, lambda v, env: ("ret", cx.coerce(v, ty).term))
         if not m_pure(m):
-            unsupported("const %s is not a pure expression" % name)
+            # an integer constant expression with checked operators: folded here (rustc evaluates it at compile
+            # time and rejects an overflow)
+            val = self.const_eval(e, [f, "common.rs"]) if is_int(ty) else None
+            if val is None:
+                unsupported("const %s is not a pure expression" % name)
+            lo, hi = int_range(ty)
+            if not lo <= val <= hi:
+                unsupported("const %s overflows its type" % name)
+            m = ("ret", zlit(val))
         v = V(mangle(name), ty)
         self.consts.append((mangle(name), gty(ty), m_print(m, False, 1)))
         self.const_names[name] = v
@@ -1277,7 +1435,7 @@ class Cx:
         name, args = t[1], t[2]
         if name in self.overrides:
             o = self.overrides[name]
-            if o in ("str", "msg", "rvalue", "objstring"):
+            if o in ("str", "msg", "rvalue", "objstring", "xvalue"):
                 return o
             if len(o) == 1 and o.isupper():
                 if o not in self.tyvars:
@@ -1286,7 +1444,7 @@ class Cx:
             unsupported("bad type override %r" % o)
         if name in INT_TYPES:
             return T_int(name)
-        if name in ("f64", "bool"):
+        if name in ("f64", "bool", "char"):
             return name
         if name in ("str", "String"):
             return "str"
@@ -1301,12 +1459,24 @@ class Cx:
         if name == "Vec":
             if args and args[0] == ("tpath", "u8", []):
                 return ("list", "byte")
-            return ("list", self.resolve(args[0]))
+            try:
+                return ("list", self.as_value_type(self.resolve(args[0])))
+            except Unsupported:
+                # a Vec of something that is not modelled: only its length can be looked at
+                a0 = args[0]
+                if a0[0] == "tpath" and re.match(r"^[A-Z]\w*$", a0[1]):
+                    tv = "T_" + a0[1]
+                    if tv not in self.tyvars:
+                        self.tyvars.append(tv)
+                    return ("list", ("tyvar", tv))
+                raise
         if name == "Option":
-            return ("opt", self.resolve(args[0]))
+            return ("opt", self.as_value_type(self.resolve(args[0])))
         if name == "Result":
             if len(args) == 2 and args[1][0] == "tpath" and args[1][1] == "Error":
                 return ("result", self.resolve(args[0]))
+            if len(args) == 2 and args[1][0] == "tpath" and args[1][1] in self.src.enums():
+                return ("result2", self.resolve(args[0]), ("enum", args[1][1]))
             unsupported("Result with an error type other than Error")
         if name == "Error":
             return "error"
@@ -1317,7 +1487,69 @@ class Cx:
         st = self.src.structs()
         if name in st:
             return ("struct", name)
+        if name in self.src.enums():
+            return ("enum", name)
         unsupported("type `%s`" % name)
+
+    def as_value_type(self, t):
+        """a struct stored in a Vec / Option is a VALUE: the tuple of its fields (declaration order)"""
+        if isinstance(t, tuple) and t[0] == "struct":
+            fields = self.src.structs().get(t[1])
+            if not fields:
+                unsupported("struct `%s` has no readable declaration" % t[1])
+            fs = []
+            for n, ft in fields:
+                rt = self.resolve(ft)
+                if isinstance(rt, tuple) and rt[0] == "struct":
+                    unsupported("struct `%s` nests the struct `%s`" % (t[1], rt[1]))
+                fs.append((n, rt))
+            return ("sval", t[1], fs)
+        return t
+
+    @staticmethod
+    def proj(term, i, n):
+        t = term
+        for _ in range(n - 1 - i):
+            t = "(fst %s)" % t
+        if i > 0 and n > 1:
+            t = "(snd %s)" % t
+        return t
+
+    def path_type(self, p, env):
+        """resolved type of the place p (tuple of segments), None if unknown"""
+        try:
+            root = p[0]
+            if root not in env:
+                return None
+            b = env[root]
+            if b[0] == "place":
+                sname = b[2]
+                ty = ("struct", sname)
+                for f in p[1:]:
+                    if not (isinstance(ty, tuple) and ty[0] == "struct"):
+                        return None
+                    _, t = self.field_index(ty[1], f)
+                    ty = self.resolve(t)
+                return ty
+            if len(p) == 1 and b[0] in ("val", "param"):
+                return b[2]
+        except Unsupported:
+            return None
+        return None
+
+    def stack_effect(self, n):
+        st = self.cfg.get("stack")
+        return bool(st) and n[0] == "mcall" and n[1] == ("path", [st], None) and n[2] in ("pop", "poke", "push")
+
+    def mutated_place(self, n, env):
+        """`x.push(v)` / `x.pop()` on a Vec-typed place: the path, else None"""
+        if n[0] == "mcall" and n[2] in ("push", "pop"):
+            p = self.static_path(n[1])
+            if p is not None:
+                ty = self.path_type(p, env)
+                if isinstance(ty, tuple) and ty[0] == "list":
+                    return p
+        return None
 
     # ----- names
     def tmp(self, hint=None):
@@ -1352,6 +1584,8 @@ class Cx:
 
     def path_sortkey(self, path):
         """path = (root, f1, f2..): sort key from declaration order"""
+        if len(path) == 2 and path[1] == "#fx":
+            return (3, 9999)
         root = path[0]
         if root == "self":
             key = [3]
@@ -1371,6 +1605,8 @@ class Cx:
         g = "_".join(mangle(p) if i == 0 else p for i, p in enumerate(path))
         if len(path) == 1:
             g = mangle(path[0])
+        if len(path) == 2 and path[1] == "#fx":
+            g = mangle(path[0]) + "_fx"
         return self.reg_param(key, g, ty, self.path_sortkey(path) + (0,), ("leaf",) + tuple(path))
 
     def shown(self, path):
@@ -1439,6 +1675,11 @@ class Cx:
                     p = self.static_path(n[2])
                     if p is not None and p[0] == "self" and p not in found:
                         found.append(p)
+                mp = self.mutated_place(n, self.scan_env)
+                if mp is not None and mp[0] == "self" and mp not in found:
+                    found.append(mp)
+                if self.stack_effect(n) and (self.cfg["stack"], "#fx") not in found:
+                    found.append((self.cfg["stack"], "#fx"))
                 if n[0] == "mcall" and n[1] == ("path", ["self"], None):
                     cal = self.unit.fns.get((self.decl.impl, n[2]))
                     if cal is not None:
@@ -1450,6 +1691,9 @@ class Cx:
         visit(stmts_ast)
         res = []
         for p in found:
+            if len(p) == 2 and p[1] == "#fx":
+                res.append((p, ("list", "fx")))
+                continue
             sname = self.self_struct
             ty = None
             for f in p[1:]:
@@ -1512,6 +1756,7 @@ class Cx:
         return kept[0][1] if len(kept) == 1 else ("tuple", [t for _, t in kept])
 
     def translate_body(self, name, block, env, ret_ty):
+        self.scan_env = env
         mutated = self.mutated_self_paths(block) if (self.decl.self_kind == "mut") else []
         if self.decl.self_kind != "mut" and self.decl.self_kind is not None:
             if self.mutated_self_paths(block):
@@ -1555,6 +1800,8 @@ class Cx:
             return v
         if v.term is None:
             unsupported("a struct value is used where a %s is expected" % (ty,))
+        if isinstance(v.ty, tuple) and v.ty[0] == "intq" and is_int(ty):
+            raise ResolveInt(v.ty[1], ty)
         if not ty_eq(v.ty, ty):
             unsupported("type mismatch: found %r, expected %r" % (v.ty, ty))
         return v
@@ -1564,12 +1811,22 @@ class Cx:
         assert block[0] == "block"
         stmts, tail = block[1], block[2]
         outer = env
+        renames = {}
         if not top:
             for st in stmts:
                 if st[0] == "let":
                     for n in pat_names(st[1]):
                         if n in outer:
-                            unsupported("a `let` in an inner block shadows the outer variable `%s`" % n)
+                            # an immutable `let x` may shadow an outer x: it gets a fresh Gallina name (the text that
+                            # follows the block is emitted inside its scope and must still see the outer x)
+                            if st[1][0] == "p_id" and not st[1][2] and n not in renames:
+                                j = 1
+                                while "%s_%d" % (mangle(n), j) in self.idents:
+                                    j += 1
+                                renames[n] = "%s_%d" % (mangle(n), j)
+                                self.idents.add(renames[n])
+                            else:
+                                unsupported("a `let` in an inner block shadows the outer variable `%s`" % n)
 
         def go(i, env1):
             if i == len(stmts):
@@ -1583,10 +1840,40 @@ class Cx:
                     unsupported("`let` without initialiser (line %d)" % line)
                 want = self.resolve(tast) if tast is not None else None
                 hint = mangle(pat[1]) if pat[0] == "p_id" else None
+                if pat[0] == "p_id" and pat[1] in renames:
+                    hint = renames[pat[1]]
+                if pat[0] == "p_id" and tast is None and self.is_bare_literal(init) and init[0] == "lit_int":
+                    # the type of the literal is fixed by the first typed use of the variable (Rust infers it);
+                    # i32 if nothing fixes it
+                    self.intq_n = getattr(self, "intq_n", 0) + 1
+                    ident = self.intq_n
+                    snap = (dict(self.params), self.tmp_n, self.extra_n, len(self.regions), list(self.tyvars),
+                            self.fuel)
+
+                    def attempt(ty):
+                        self.params, self.tmp_n, self.extra_n = dict(snap[0]), snap[1], snap[2]
+                        del self.regions[snap[3]:]
+                        self.tyvars, self.fuel = list(snap[4]), snap[5]
+                        lo, hi = (0, 0) if ty[0] == "intq" else int_range(ty)
+                        if not lo <= init[1] <= hi:
+                            unsupported("literal %d out of range for %s" % (init[1], ty[3]))
+                        lets, env3 = self.bind_pat(pat, V(zlit(init[1]), ty), env1, rename=renames.get(pat[1]))
+                        m = go(i + 1, env3)
+                        for lp, lt in reversed(lets):
+                            m = ("let", lp, lt, m)
+                        return m
+                    try:
+                        return attempt(("intq", ident))
+                    except ResolveInt as rx:
+                        if rx.ident != ident:
+                            raise
+                        return attempt(rx.ty)
+                    except Unsupported:
+                        return attempt(T_I32)
 
                 def after(v, env2):
                     v = self.coerce(v, want)
-                    lets, env3 = self.bind_pat(pat, v, env2)
+                    lets, env3 = self.bind_pat(pat, v, env2, rename=renames.get(pat[1]) if pat[0] == "p_id" else None)
                     m = go(i + 1, env3)
                     for lp, lt in reversed(lets):
                         m = ("let", lp, lt, m)
@@ -1597,11 +1884,11 @@ class Cx:
             unsupported("statement %s" % st[0])
         return go(0, env)
 
-    def bind_pat(self, pat, v, env):
+    def bind_pat(self, pat, v, env, rename=None):
         """irrefutable pattern: returns ([(gallina pattern, term)], env')"""
         k = pat[0]
         if k == "p_ref":
-            return self.bind_pat(pat[1], v, env)
+            return self.bind_pat(pat[1], v, env, rename)
         if k == "p_wild":
             return [], env
         if k == "p_id":
@@ -1609,7 +1896,7 @@ class Cx:
             if v.term is None:
                 env2[pat[1]] = ("place", v.path, v.ty[1])
                 return [], env2
-            g = mangle(pat[1])
+            g = rename or mangle(pat[1])
             if g in [p[0] for p in self.params.values()] and v.term != g:
                 unsupported("local `%s` has the name of a generated parameter" % g)
             env2[pat[1]] = ("val", g, v.ty, None)
@@ -1646,6 +1933,8 @@ class Cx:
                 return v
             if b[0] == "badparam":
                 unsupported("parameter `%s`: %s" % (b[1], b[2]))
+            if b[0] == "xelem":
+                return V("(fst %s)" % b[1], "xvalue", shown="(snd %s)" % b[1])
             v = V(b[1], b[2])
             v.path = b[3] if len(b) > 3 else None
             return v
@@ -1680,6 +1969,12 @@ class Cx:
             v = V(g, ty)
             v.path = path
             return v
+        if isinstance(base.ty, tuple) and base.ty[0] == "sval":
+            fs = base.ty[2]
+            for i, (n, ft) in enumerate(fs):
+                if n == fname:
+                    return V(self.proj(base.term, i, len(fs)), ft)
+            unsupported("struct `%s` has no field `%s`" % (base.ty[1], fname))
         if base.ty == "objstring":
             if fname == "hash":
                 return V("(fst %s)" % base.term, T_int("u64"))
@@ -1720,6 +2015,13 @@ class Cx:
                     kx = self.assign_key(p, env, lenient=True)
                     if kx is not None:
                         add(kx)
+                mp = self.mutated_place(n, env)
+                if mp is not None:
+                    kx = self.assign_key(mp, env, lenient=True)
+                    if kx is not None:
+                        add(kx)
+                if self.stack_effect(n):
+                    add(self.cfg["stack"] + ".#fx")
                 if n[0] == "mcall" and n[1] == ("path", ["self"], None) and self.decl is not None:
                     cal = self.unit.fns.get((self.decl.impl, n[2]))
                     if cal is not None:
@@ -1767,7 +2069,17 @@ class Cx:
         if kind == "lit_bool":
             return k(V("true" if e[1] else "false", "bool"), env)
         if kind == "lit_str":
+            if expect == "str":
+                return k(V(str_literal(e[1]), "str"), env)
             return k(V(coq_string(e[1]), "msg"), env)
+        if kind == "lit_char":
+            return k(V(str(e[1]), "char"), env)
+        if kind == "rangeval":
+            return k(e[1], env)
+        if kind == "closure":
+            unsupported("closure (line %d)" % e[3])
+        if kind == "range":
+            unsupported("range expression outside `for` / a slice index")
         if kind == "unit":
             return k(V("tt", "unit"), env)
         if kind == "path":
@@ -1849,6 +2161,29 @@ class Cx:
                     ("ResOk %s" % x, k(V(x, v.ty[1]), env1)),
                     ("ResErr %s" % er, ctl.ret(V("(ResErr %s)" % er, self.fn_ret_ty), env1))])
             return self.tr_expr(e[1], env, None, ctl, got)
+        if kind == "index" and e[2][0] == "range":
+            def with_sbase(b, env1):
+                if b.term is None:
+                    unsupported("slicing a struct")
+                if b.ty == "objstring":
+                    b = V("(snd %s)" % b.term, "str")
+                if b.ty != "str":
+                    unsupported("slicing a value of type %r" % (b.ty,))
+                lo_e, hi_e = e[2][1], e[2][2]
+
+                def with_lo(lo, env2):
+                    def with_hi(hi, env3):
+                        t = self.tmp(hint)
+                        return ("bind", t, ("prim", "str_slice_z %s %s %s" % (
+                            b.term, self.coerce(lo, T_USIZE).term, self.coerce(hi, T_USIZE).term)),
+                            k(V(t, "str"), env3))
+                    if hi_e is None:
+                        return with_hi(V("(list_len %s)" % b.term, T_USIZE), env2)
+                    return self.tr_expr(hi_e, env2, T_USIZE, ctl, with_hi)
+                if lo_e is None:
+                    return with_lo(V("0", T_USIZE), env1)
+                return self.tr_expr(lo_e, env1, T_USIZE, ctl, with_lo)
+            return self.tr_expr(e[1], env, None, ctl, with_sbase)
         if kind == "index":
             def with_base(b, env1):
                 if not (isinstance(b.ty, tuple) and b.ty[0] == "list") or b.term is None:
@@ -1876,6 +2211,8 @@ class Cx:
     def int_lit(self, v, suffix, expect):
         if suffix is not None:
             ty = T_int(suffix)
+        elif isinstance(expect, tuple) and expect[0] == "intq":
+            return V(zlit(v), expect)
         elif is_int(expect):
             ty = expect
         elif expect == "f64":
@@ -1901,6 +2238,13 @@ class Cx:
             return k(V(zlit(hi if segs[1] == "MAX" else lo), T_int(segs[0])), env)
         if len(segs) == 2 and segs[0] == "Option" and segs[1] == "None":
             return k(V("None", expect), env)
+        if segs == ["Value", "None"] and self.resolve(("tpath", "Value", [])) == "xvalue":
+            return k(V("XNone", "xvalue"), env)
+        if len(segs) == 2 and segs[0] in self.src.enums() and segs[0] not in self.overrides:
+            names = self.src.enums()[segs[0]]
+            if segs[1] not in names:
+                unsupported("enum `%s` has no unit variant `%s`" % (segs[0], segs[1]))
+            return k(self.unit.enum_const(segs[0], segs[1]), env)
         # module path to a const: common::X, self::X, crate::common::X
         c = self.unit.const([segs[-2] + ".rs" if os.path.exists(os.path.join(self.src.dir, segs[-2] + ".rs"))
                              else self.file, self.file, "common.rs"], segs[-1])
@@ -1976,6 +2320,10 @@ class Cx:
         if a.term is None or b.term is None:
             unsupported("operator `%s` on a struct" % op)
         ta, tb = a.ty, b.ty
+        if isinstance(ta, tuple) and ta[0] == "intq" and is_int(tb) and op not in ("<<", ">>"):
+            raise ResolveInt(ta[1], tb)
+        if isinstance(tb, tuple) and tb[0] == "intq" and is_int(ta) and op not in ("<<", ">>"):
+            raise ResolveInt(tb[1], ta)
         cmp_names = {"==": "=?", "<": "<?", "<=": "<=?", ">": ">?", ">=": ">=?"}
         if is_int(ta) and is_int(tb):
             if op in ("<<", ">>"):
@@ -2024,6 +2372,12 @@ class Cx:
         if ta == "str" and tb == "str" and op in ("==", "!="):
             t = "(str_eqb %s %s)" % (a.term, b.term)
             return k(V(t if op == "==" else "(negb %s)" % t, "bool"), env)
+        if ((ta == "char" and tb == "char") or (isinstance(ta, tuple) and ta[0] == "enum" and ta == tb)) \
+                and op in ("==", "!="):
+            t = "(%s =? %s)" % (a.term, b.term)
+            return k(V(t if op == "==" else "(negb %s)" % t, "bool"), env)
+        if ta == "char" and tb == "char" and op in cmp_names:
+            return k(V("(%s %s %s)" % (a.term, cmp_names[op], b.term), "bool"), env)
         if ta == "byte" and tb == "byte" and op in ("==", "!="):
             t = "(Byte.eqb %s %s)" % (a.term, b.term)
             return k(V(t if op == "==" else "(negb %s)" % t, "bool"), env)
@@ -2052,6 +2406,10 @@ class Cx:
                 return V("(cast_int %s %s %s)" % (zlit(lo), zlit(hi), v.term), want)
             if src == "bool":
                 return V("(if %s then 1 else 0)" % v.term, want)
+            if src == "char" and not want[1] and want[2] >= 32:
+                return V(v.term, want)
+            if isinstance(src, tuple) and src[0] == "enum" and want[2] >= 32:
+                return V(v.term, want)
             if src == "ptr" and want[2] == 64 and not want[1]:
                 return V(v.term, want)
         if want == "f64":
@@ -2069,7 +2427,7 @@ class Cx:
             return self.tr_block(b, env, expect, ctl, k)
         return self.tr_expr(b, env, expect, ctl, k)
 
-    def join(self, branches, build, env, expect, ctl, k, hint):
+    def join(self, branches, build, env, expect, ctl, k, hint, envs=None):
         """non-abrupt branches: each yields (value, assigned state); the results are merged by one binder"""
         keys = []
         for b in branches:
@@ -2090,7 +2448,7 @@ class Cx:
             return ("ret", "tt" if not items else items[0] if len(items) == 1 else "(" + ", ".join(items) + ")")
         self.regions.append((set(env.keys()), set(keys)))
         try:
-            ms = [self.tr_branch(b, env, expect, ctl, branch_k) for b in branches]
+            ms = [self.tr_branch(b, envs[i] if envs else env, expect, ctl, branch_k) for i, b in enumerate(branches)]
         finally:
             self.regions.pop()
         vty = seen.get("ty", "unit")
@@ -2147,6 +2505,13 @@ class Cx:
                 return "Some %s" % g, env2
             if pat[0] == "p_path" and pat[1][-1] == "None":
                 return "None", env
+        if isinstance(sty, tuple) and sty[0] == "result2":
+            if pat[0] == "p_ts" and pat[1][-1] == "Ok" and len(pat[2]) == 1:
+                g, env2 = sub_binder(pat[2][0], sty[1], env)
+                return "inl %s" % g, env2
+            if pat[0] == "p_ts" and pat[1][-1] == "Err" and len(pat[2]) == 1:
+                g, env2 = sub_binder(pat[2][0], sty[2], env)
+                return "inr %s" % g, env2
         if isinstance(sty, tuple) and sty[0] == "result":
             if pat[0] == "p_ts" and pat[1][-1] == "Ok" and len(pat[2]) == 1:
                 g, env2 = sub_binder(pat[2][0], sty[1], env)
@@ -2158,6 +2523,26 @@ class Cx:
             if pat[0] == "p_ts" and pat[1] == ["Value", "Number"] and len(pat[2]) == 1:
                 g, env2 = sub_binder(pat[2][0], "f64", env)
                 return "RNumber %s" % g, env2
+        if sty == "xvalue" and pat[0] == "p_ts" and len(pat[1]) == 2 and pat[1][0] == "Value" and len(pat[2]) == 1:
+            xc = {"Number": ("XNumber", "f64"), "Boolean": ("XBoolean", "bool"), "ObjString": ("XObjString", "objstring")}
+            if pat[1][1] in xc:
+                g, env2 = sub_binder(pat[2][0], xc[pat[1][1]][1], env)
+                return "%s %s" % (xc[pat[1][1]][0], g), env2
+        if sty == "xvalue" and pat[0] == "p_ts" and pat[1] == ["Value", "ObjRange"] and len(pat[2]) == 1:
+            sp = pat[2][0]
+            if sp[0] == "p_ref":
+                sp = sp[1]
+            if sp[0] == "p_wild":
+                return "XObjRange _ _", env
+            if sp[0] != "p_id" or sp[1] in env:
+                unsupported("pattern inside Value::ObjRange(..)")
+            gb, ge = mangle(sp[1]) + "_begin", mangle(sp[1]) + "_end"
+            env3 = dict(env)
+            isz = T_int("isize")
+            env3[sp[1]] = ("val", "(%s, %s)" % (gb, ge), ("sval", "ObjRange", [("begin", isz), ("end", isz)]), None)
+            return "XObjRange %s %s" % (gb, ge), env3
+        if sty == "xvalue" and pat[0] == "p_path" and pat[1] == ["Value", "None"]:
+            return "XNone", env
         if sty == "bool" and pat[0] == "p_bool":
             return ("true" if pat[1] else "false"), env
         if is_int(sty) and pat[0] == "p_lit" and pat[1] >= 0:
@@ -2179,6 +2564,8 @@ class Cx:
         def with_scrut(s, env1):
             if s.term is None:
                 unsupported("match on a struct")
+            if s.ty == "str":
+                return self.tr_match_str(s, arms, env1, expect, ctl, k, hint)
             pats = []
             for pat, _, body in arms:
                 gp, envp = self.arm_pattern(pat, s.ty, env1)
@@ -2222,6 +2609,39 @@ class Cx:
             pat = items[0] if len(items) == 1 else "(" + ", ".join(items) + ")"
             return ("bind", pat, m, k(V(vname or "tt", vty), env1))
         return self.tr_expr(scrut, env, None, ctl, with_scrut)
+
+    def tr_match_str(self, s, arms, env, expect, ctl, k, hint):
+        """`match <&str> { "lit" => .., x => .. }`: a chain of comparisons, first match wins"""
+        tests = []          # [(condition term | None, env of the arm, body)]
+        for pat, _, body in arms:
+            if pat[0] == "p_str":
+                tests.append(("(str_eqb %s %s)" % (s.term, str_literal(pat[1])), env, body))
+            elif pat[0] == "p_wild":
+                tests.append((None, env, body))
+                break
+            elif pat[0] == "p_id":
+                if pat[1] in env:
+                    unsupported("pattern variable `%s` shadows an outer variable" % pat[1])
+                env2 = dict(env)
+                g = mangle(pat[1])
+                if s.term != g:
+                    unsupported("a binding arm of a match on a &str whose scrutinee is not the variable itself")
+                env2[pat[1]] = ("val", g, "str", None)
+                tests.append((None, env2, body))
+                break
+            else:
+                unsupported("pattern %r against a &str" % (pat,))
+        if not tests or tests[-1][0] is not None:
+            unsupported("match on a &str without a catch-all arm")
+
+        def chain(ms):
+            m = ms[-1]
+            for (c, _, _), mi in reversed(list(zip(tests[:-1], ms[:-1]))):
+                m = ("if", c, mi, m)
+            return m
+        if any(is_abrupt(b) for _, _, b in tests):
+            return chain([self.tr_branch(b, envp, expect, ctl, lambda v, env2: k(v, env)) for _, envp, b in tests])
+        return self.join([b for _, _, b in tests], chain, env, expect, ctl, k, hint, envs=[ev for _, ev, _ in tests])
 
     def tr_loop(self, e, env, ctl, k):
         kind = e[0]
@@ -2267,21 +2687,58 @@ class Cx:
                 _, lpat, it, _ = e
                 if lpat[0] == "p_ref":
                     lpat = lpat[1]
-                if lpat[0] != "p_id":
+                if lpat[0] == "p_tuple" and not all(
+                        (sp[1] if sp[0] == "p_ref" else sp)[0] in ("p_id", "p_wild") for sp in lpat[1]):
+                    unsupported("pattern of a `for` loop")
+                if lpat[0] not in ("p_id", "p_wild", "p_tuple"):
                     unsupported("pattern of a `for` loop")
                 box = {}
 
                 def with_it(lv, env1):
                     if not (isinstance(lv.ty, tuple) and lv.ty[0] == "list") or lv.term is None:
                         unsupported("`for` over a value of type %r" % (lv.ty,))
-                    if lpat[1] in env1:
-                        unsupported("loop variable shadows `%s`" % lpat[1])
                     env2 = dict(env1)
-                    g = mangle(lpat[1])
-                    env2[lpat[1]] = ("val", g, lv.ty[1], None)
+                    if lpat[0] == "p_tuple":
+                        ety = lv.ty[1]
+                        if not (isinstance(ety, tuple) and ety[0] == "tuple" and len(ety[1]) == len(lpat[1])):
+                            unsupported("tuple pattern of a `for` loop over %r" % (ety,))
+                        names = []
+                        for sp, st in zip(lpat[1], ety[1]):
+                            if sp[0] == "p_ref":
+                                sp = sp[1]
+                            if sp[0] == "p_wild":
+                                names.append("_")
+                                continue
+                            if sp[1] in env1:
+                                unsupported("loop variable shadows `%s`" % sp[1])
+                            names.append(mangle(sp[1]))
+                            env2[sp[1]] = ("val", mangle(sp[1]), st, None)
+                        g = "'(" + ", ".join(names) + ")"
+                    elif lpat[0] == "p_wild":
+                        g = "_"
+                    else:
+                        if lpat[1] in env1:
+                            unsupported("loop variable shadows `%s`" % lpat[1])
+                        g = mangle(lpat[1])
+                        if lv.ty[1] == "xelem":
+                            env2[lpat[1]] = ("xelem", g)
+                        else:
+                            env2[lpat[1]] = ("val", g, lv.ty[1], None)
                     bm = self.tr_block(body, env2, None, lctl, lambda v, env3: lctl.cont(env3))
                     box["node"] = ("forin", lv.term, g, pat_b, bm, pat, rty)
                     return ("ret", "tt")
+                while it[0] == "paren":
+                    it = it[1]
+                if it[0] == "range":
+                    # `for i in a..b`: both bounds are evaluated once, before the loop (they may fault)
+                    if it[1] is None or it[2] is None:
+                        unsupported("`for` over an open range")
+                    self.regions.pop()
+                    try:
+                        return self.tr_expr(it[1], env, None if self.is_bare_literal(it[1]) else None, ctl,
+                                            lambda lo, env1: self.for_range(e, lo, it, env1, ctl, k, keys))
+                    finally:
+                        self.regions.append((set(env.keys()), set(keys)))
                 r = self.tr_expr(it, env, None, ctl, with_it)
                 if r != ("ret", "tt"):
                     unsupported("the iterated expression of a `for` loop is not pure")
@@ -2298,6 +2755,21 @@ class Cx:
         arms = [("inl %s" % paren(pat_b), after_break),
                 ("inr %s" % rr, ctl.ret_packed(rr) if with_ret else ("absurd", rr))]
         return ("bind", o, node, ("match", o, arms))
+
+    def for_range(self, e, lo, it, env, ctl, k, keys):
+        """`for i in lo..hi { body }` with lo already evaluated"""
+        def with_hi(hi, env1):
+            lo2 = lo
+            if not is_int(hi.ty):
+                unsupported("range bound of type %r" % (hi.ty,))
+            if self.is_bare_literal(it[1]):
+                lo2 = self.int_lit(it[1][1], None, hi.ty) if it[1][0] == "lit_int" else lo
+            if not (is_int(lo2.ty) and ty_eq(lo2.ty, hi.ty)):
+                unsupported("range bounds of types %r and %r" % (lo2.ty, hi.ty))
+            rng = V("(z_range %s %s)" % (lo2.term, hi.term), ("list", hi.ty))
+            e2 = ("for", e[1], ("rangeval", rng), e[3])
+            return self.tr_loop(e2, env1, ctl, k)
+        return self.tr_expr(it[2], env, lo.ty if not self.is_bare_literal(it[1]) else None, ctl, with_hi)
 
     def tr_assign(self, e, env, ctl, k):
         _, op, lhs, rhs = e
@@ -2328,6 +2800,91 @@ class Cx:
         return self.tr_expr(rhs, env, None if bop in ("<<", ">>") else ty, ctl,
                             lambda rv, env1: self.binop(bop, cur, rv, env1, store, hint=g))
 
+    def pure_lambda(self, clo, ptys, env, expect, what):
+        """a closure |x..| body whose body is a pure expression: ('fun x .. => term', result type)"""
+        if clo[0] != "closure":
+            unsupported("%s expects a closure" % what)
+        _, params, body, line = clo
+        if len(params) != len(ptys):
+            unsupported("%s: closure with %d parameters (line %d)" % (what, len(params), line))
+        env2 = dict(env)
+        names = []
+        for pat, ty in zip(params, ptys):
+            while pat[0] == "p_ref":
+                pat = pat[1]
+            if pat[0] == "p_wild":
+                names.append("_")
+            elif pat[0] == "p_id":
+                if pat[1] in env:
+                    unsupported("closure parameter `%s` shadows an outer variable" % pat[1])
+                g = mangle(pat[1])
+                if ty == "xelem":
+                    env2[pat[1]] = ("xelem", g)
+                else:
+                    env2[pat[1]] = ("val", g, ty, None)
+                names.append(g)
+            else:
+                unsupported("closure parameter pattern (line %d)" % line)
+        if self.assigned_keys(body, env2):
+            unsupported("a closure that assigns captured variables (line %d)" % line)
+        if is_abrupt(body):
+            unsupported("return / ? / break inside a closure (line %d)" % line)
+        box = {}
+
+        def fin(v, env3):
+            v = self.coerce(v, expect)
+            if v.term is None:
+                unsupported("a closure that evaluates to a struct")
+            box["ty"] = v.ty
+            return ("ret", v.term)
+        self.regions.append((set(env2.keys()), set()))
+        try:
+            m = self.tr_expr(body, env2, expect, Ctl(None, None), fin)
+        finally:
+            self.regions.pop()
+        if not m_pure(m):
+            unsupported("%s: the closure body can fault or loops (line %d)" % (what, line))
+        text = m_print(m, False, 3)
+        if names:
+            return "(fun %s => %s)" % (" ".join(names), text), box["ty"]
+        return text, box["ty"]
+
+    def display(self, v):
+        """the `{}` rendering of v as a Gallina string term"""
+        if v.ty == "msg":
+            return v.term
+        if v.ty in ("rvalue", "xvalue"):
+            if getattr(v, "shown", None):
+                return v.shown() if callable(v.shown) else v.shown
+            if getattr(v, "path", None):
+                return self.shown(tuple(v.path))
+        if is_int(v.ty):
+            return "(show_int %s)" % v.term
+        unsupported("Display of a value of type %r" % (v.ty,))
+
+    def tr_format_args(self, toks, lo, hi, line, env, ctl, k):
+        """`"fmt", args..` of format!/error!: k(message term, env)"""
+        p = Parser(toks, lo, hi)
+        parts = []
+        while not p.done():
+            parts.append(p.parse_expr())
+            if p.at(","):
+                p.next()
+        if not parts or parts[0][0] != "lit_str":
+            unsupported("format string expected (line %d)" % line)
+        fmt = parts[0][1]
+        rendered = []
+
+        def go(i, env1):
+            if i == len(parts):
+                return k(V("(format %s [%s])" % (coq_string(fmt), "; ".join(rendered)), "msg"), env1)
+
+            def got(v, env2):
+                rendered.append(self.display(v))
+                return go(i + 1, env2)
+            return self.tr_expr(parts[i], env1, None, ctl, got)
+        return go(1, env)
+
     # ----- calls
     IDENTITY_ON_PLACE = ("borrow", "borrow_mut", "as_ref", "as_mut", "deref", "clone", "get")
 
@@ -2347,12 +2904,151 @@ class Cx:
             if cal is not None:
                 return self.call_translated(cal, True, args, env, ctl, k, hint)
 
+        # Vec::push / Vec::pop on a place
+        mp = self.mutated_place(e, env)
+        if mp is not None:
+            key = self.assign_key(mp, env)
+            self.check_captured(key, env)
+            box = {}
+
+            def grab(v, env1):
+                box["v"] = v
+                return ("ret", "tt")
+            self.tr_expr(recv, env, None, ctl, grab)
+            cur = box["v"]
+            g, lty = cur.term, cur.ty
+            if name == "push" and len(args) == 1:
+                return self.tr_expr(args[0], env, lty[1], ctl, lambda v, env1: (
+                    "let", g, "(%s ++ [%s])" % (g, self.coerce(v, lty[1]).term), k(V("tt", "unit"), env1)))
+            if name == "pop" and not args:
+                t = self.tmp(hint)
+                return ("let", "(%s, %s)" % (t, g), "(list_pop %s)" % g, k(V(t, ("opt", lty[1])), env))
+            unsupported("method `%s` with these arguments" % name)
+        # an abstract method of a field: self.stack.len()
+        sp = self.static_path(recv)
+        if sp is not None and ".".join(sp) + "." + name in self.abstract and not args:
+            key = ".".join(sp) + "." + name
+            gname, tname = self.abstract[key]
+            ty = T_int(tname) if tname in INT_TYPES else tname
+            g = self.reg_param("#abs." + key, gname, ty, (3, 999, gname), ("abstract", key))
+            return k(V(g, ty), env)
+        # the value stack of the VM as seen by a native: vm.peek(k) is the abstract input `<vm>_peek_<k>`
+        stack = self.cfg.get("stack")
+        if stack and recv == ("path", [stack], None):
+            if name == "peek" and len(args) == 1 and args[0][0] == "lit_int":
+                if getattr(self, "fx_used", False):
+                    unsupported("peek after a stack effect (the slot numbers have moved)")
+                kx = args[0][1]
+                base = "%s_peek_%d" % (mangle(stack), kx)
+                g = self.reg_param("#peek.%d" % kx, base, "xvalue", (6, kx, 0), ("peek", kx))
+                return k(V(g, "xvalue", shown=lambda: self.reg_param(
+                    "#peek.%d#shown" % kx, base + "_shown", "msg", (6, kx, 1), ("peekshown", kx))), env)
+            if name in ("pop", "poke", "push"):
+                # effects on the value stack: appended to the log <stack>_fx, which the function returns
+                if stack != "self" or self.decl.self_kind != "mut":
+                    unsupported("stack effect through `%s`" % stack)
+                key = stack + ".#fx"
+                self.check_captured(key, env)
+                self.fx_used = True
+                g = self.leaf((stack, "#fx"), ("list", "fx"))
+                if name == "pop" and not args:
+                    return ("let", g, "(%s ++ [FxPop])" % g, k(V("tt", "popped"), env))
+                if name == "poke" and len(args) == 2 and args[0][0] == "lit_int":
+                    return self.tr_expr(args[1], env, "xvalue", ctl, lambda v, env1: (
+                        "let", g, "(%s ++ [FxPoke %d %s])" % (g, args[0][1], atom(self.coerce(v, "xvalue").term)),
+                        k(V("tt", "unit"), env1)))
+                if name == "push" and len(args) == 1:
+                    return self.tr_expr(args[0], env, "xvalue", ctl, lambda v, env1: (
+                        "let", g, "(%s ++ [FxPush %s])" % (g, atom(self.coerce(v, "xvalue").term)),
+                        k(V("tt", "unit"), env1)))
+                unsupported("stack effect `%s` with these arguments" % name)
+            if name == "new_gc_obj_string" and len(args) == 1:
+                return self.tr_expr(args[0], env, "str", ctl, lambda v, env1: k(
+                    V("(new_obj_string %s)" % self.coerce(v, "str").term, "objstring"), env1))
+
         def with_recv(r, env1):
             if r.term is None:
                 if name in self.IDENTITY_ON_PLACE and not args:
                     return k(r, env1)
                 unsupported("method `%s` on a struct" % name)
             ty = r.ty
+            # a translated method of ObjString called on a value
+            if ty == "objstring":
+                cal = self.unit.fns.get(("ObjString", name))
+                if cal is not None:
+                    return self.call_translated(cal, False, args, env1, ctl, k, hint, recv=r)
+            if isinstance(ty, tuple) and ty[0] == "sval":
+                cal = self.unit.fns.get((ty[1], name))
+                if cal is not None:
+                    return self.call_translated(cal, False, args, env1, ctl, k, hint, recv=r)
+            if ty in ("xvalue", "rvalue"):
+                cal = self.unit.fns.get(("Value", name))
+                if cal is not None:
+                    return self.call_translated(cal, False, args, env1, ctl, k, hint, recv=r)
+            if ty == "objstring" and name not in ("as_str", "len", "is_char_boundary"):
+                r = V("(snd %s)" % r.term, "str")
+                ty = "str"
+            if ty == "msg" and name == "as_str" and not args:
+                return k(r, env1)
+            if ty == "xvalue" and not args:
+                xm = {"try_as_obj_string": ("x_try_as_obj_string", ("opt", "objstring")),
+                      "try_as_number": ("x_try_as_number", ("opt", "f64")),
+                      "try_as_obj_vec": ("x_try_as_obj_vec", ("opt", ("list", "xelem"))),
+                      "try_into_bool": ("x_try_into_bool", ("opt", "bool"))}
+                if name in xm:
+                    return k(V("(%s %s)" % (xm[name][0], r.term), xm[name][1]), env1)
+            if ty == "char" and not args:
+                cm = {"is_ascii_alphabetic": "char_is_ascii_alphabetic", "is_ascii_digit": "char_is_ascii_digit",
+                      "is_ascii_hexdigit": "char_is_ascii_hexdigit"}
+                if name in cm:
+                    return k(V("(%s %s)" % (cm[name], r.term), "bool"), env1)
+            if ty == "str":
+                if name == "is_empty" and not args:
+                    return k(V("(str_is_empty %s)" % r.term, "bool"), env1)
+                if name == "chars" and not args:
+                    return k(V("(str_chars %s)" % r.term, ("list", "char")), env1)
+                if name in ("starts_with", "ends_with") and len(args) == 1:
+                    return self.tr_expr(args[0], env1, "str", ctl, lambda a, env2: k(
+                        V("(str_%s %s %s)" % (name, r.term, self.coerce(a, "str").term), "bool"), env2))
+                if name == "replace" and len(args) == 2:
+                    return self.tr_expr(args[0], env1, "str", ctl, lambda a, env2: self.tr_expr(
+                        args[1], env2, "str", ctl, lambda b, env3: k(
+                            V("(str_replace %s %s %s)" % (r.term, self.coerce(a, "str").term,
+                                                          self.coerce(b, "str").term), "str"), env3)))
+            if isinstance(ty, tuple) and ty[0] == "list":
+                if name == "enumerate" and not args:
+                    return k(V("(enumerate_z %s)" % r.term, ("list", ("tuple", [T_USIZE, ty[1]]))), env1)
+                if name == "rev" and not args:
+                    return k(V("(rev %s)" % r.term, ty), env1)
+                if name == "all" and len(args) == 1:
+                    fn, _ = self.pure_lambda(args[0], [ty[1]], env1, "bool", "all")
+                    return k(V("(forallb %s %s)" % (fn, r.term), "bool"), env1)
+                if name == "count" and not args:
+                    return k(V("(list_len %s)" % r.term, T_USIZE), env1)
+                if name == "is_empty" and not args:
+                    return k(V("(list_len %s =? 0)" % r.term, "bool"), env1)
+            if isinstance(ty, tuple) and ty[0] == "opt":
+                if name in ("expect", "unwrap") and len(args) == (1 if name == "expect" else 0):
+                    msg = ""
+                    if args:
+                        if args[0][0] != "lit_str":
+                            unsupported("expect(..) with a computed message")
+                        msg = args[0][1]
+                    x = self.tmp(hint)
+                    return ("match", r.term, [
+                        ("Some %s" % x, k(V(x, ty[1]), env1)),
+                        ("None", ("fail", "(ExplicitPanic %s)" % coq_string(msg)))])
+                if name == "ok_or_else" and len(args) == 1:
+                    et, _ = self.pure_lambda(args[0], [], env1, "error", "ok_or_else")
+                    x = self.tmp()
+                    return k(V("(match %s with Some %s => ResOk %s | None => ResErr %s end)" % (
+                        r.term, x, x, atom(et)), ("result", ty[1])), env1)
+            if isinstance(ty, tuple) and ty[0] == "result":
+                if name == "map_err" and len(args) == 1:
+                    et, _ = self.pure_lambda(args[0], ["error"], env1, "error", "map_err")
+                    x = self.tmp()
+                    return k(V("(match %s with ResOk %s => ResOk %s | ResErr %s => ResErr (%s %s) end)" % (
+                        r.term, x, x, x + "e", et, x + "e"), ty), env1)
             if name in ("as_ref", "clone", "iter", "as_bytes", "borrow") and not args:
                 return k(r, env1)
             if is_int(ty):
@@ -2444,7 +3140,13 @@ class Cx:
             return self.tr_expr(args[0], env, want, ctl, lambda v, env1: k(
                 V("(Some %s)" % self.need_term(v), ("opt", v.ty)), env1))
         if segs in (["Ok"], ["Err"]) and len(args) == 1:
-            rt = expect if isinstance(expect, tuple) and expect[0] == "result" else self.fn_ret_ty
+            rt = expect if isinstance(expect, tuple) and expect[0] in ("result", "result2") else self.fn_ret_ty
+            if isinstance(rt, tuple) and rt[0] == "result2":
+                if last == "Ok":
+                    return self.tr_expr(args[0], env, rt[1], ctl, lambda v, env1: k(
+                        V("(inl %s)" % self.coerce(v, rt[1]).term, rt), env1))
+                return self.tr_expr(args[0], env, rt[2], ctl, lambda v, env1: k(
+                    V("(inr %s)" % self.coerce(v, rt[2]).term, rt), env1))
             if not (isinstance(rt, tuple) and rt[0] == "result"):
                 unsupported("`%s(..)` without a known Result type" % last)
             if last == "Ok":
@@ -2452,6 +3154,23 @@ class Cx:
                     V("(ResOk %s)" % self.coerce(v, rt[1]).term, rt), env1))
             return self.tr_expr(args[0], env, "error", ctl, lambda v, env1: k(
                 V("(ResErr %s)" % self.coerce(v, "error").term, rt), env1))
+        if len(segs) == 2 and segs[0] == "Value" and len(args) == 1 \
+                and self.resolve(("tpath", "Value", [])) == "xvalue":
+            ctor = {"Number": ("XNumber", "f64"), "Boolean": ("XBoolean", "bool"),
+                    "ObjString": ("XObjString", "objstring")}
+            if last not in ctor:
+                unsupported("constructor Value::%s" % last)
+            cn, aty = ctor[last]
+            return self.tr_expr(args[0], env, aty, ctl, lambda v, env1: k(
+                V("(%s %s)" % (cn, self.coerce(v, aty).term), "xvalue"), env1))
+        if segs == ["Error", "with_message"] and len(args) == 2:
+            kp = args[0]
+            if kp[0] != "path" or kp[1][0] != "ErrorKind":
+                unsupported("Error::with_message with a computed kind")
+            return self.tr_expr(args[1], env, "msg", ctl, lambda v, env1: k(
+                V("(mk_error %s %s)" % (coq_string(kp[1][-1]), self.coerce(v, "msg").term), "error"), env1))
+        if segs == ["String", "from"] and len(args) == 1:
+            return self.tr_expr(args[0], env, "str", ctl, lambda v, env1: k(self.coerce(v, "str"), env1))
         if segs == ["Value", "Number"] and len(args) == 1:
             return self.tr_expr(args[0], env, "f64", ctl, lambda v, env1: k(
                 V("(RNumber %s)" % self.coerce(v, "f64").term, "rvalue"), env1))
@@ -2487,7 +3206,7 @@ class Cx:
             unsupported("a struct value is used as a plain value")
         return v.term
 
-    def call_translated(self, cal, is_self, args, env, ctl, k, hint):
+    def call_translated(self, cal, is_self, args, env, ctl, k, hint, recv=None):
         d = cal.decl
         if len(args) != len(d.params):
             unsupported("call of %s with %d arguments" % (cal.name, len(args)))
@@ -2498,6 +3217,8 @@ class Cx:
             if origin[0] == "leaf" and len(origin) == 2 and origin[1] != "self":
                 want[origin[1]] = pty
         vals = {}
+        if recv is not None:
+            vals["self"] = recv
 
         def go(i, env1):
             if i == len(args):
@@ -2524,14 +3245,27 @@ class Cx:
                     self.extra_n += 1
                     actuals.append(self.reg_param("#extra." + origin[1], mangle(origin[1]), origin[2],
                                                   (5, self.extra_n), origin))
+                elif o == "peek":
+                    unsupported("callee reads the value stack")
                 elif o == "abstract":
                     if not is_self:
                         unsupported("abstract parameter of a callee that is not a method of self")
                     actuals.append(self.reg_param("#abs." + origin[1], g, pty, (3, 999, g), origin))
                 elif o in ("leaf", "shown"):
                     root, sub = origin[1], tuple(origin[2:])
+                    if root == "self" and not is_self and "self" in vals and not sub:
+                        actuals.append(self.coerce(vals["self"], pty).term if o == "leaf"
+                                       else self.display(vals["self"]))
+                        continue
+                    if root == "self" and not is_self and "self" in vals and len(sub) == 1 and o == "leaf" \
+                            and isinstance(vals["self"].ty, tuple) and vals["self"].ty[0] == "sval":
+                        actuals.append(self.coerce(self.field_of(vals["self"], sub[0]), pty).term)
+                        continue
+                    if root != "self" and o == "shown" and not sub and getattr(vals[root], "shown", None):
+                        actuals.append(self.display(vals[root]))
+                        continue
                     if root == "self":
-                        if not is_self and "self" not in vals:
+                        if not is_self:
                             unsupported("callee uses self")
                         path = ("self",) + sub
                     else:
@@ -2588,6 +3322,16 @@ class Cx:
                 if hi > lo + 1:
                     msg = msg          # arguments of the message are not rendered
             return ("fail", "(ExplicitPanic %s)" % coq_string(msg))
+        if name == "format":
+            return self.tr_format_args(toks, lo, hi, line, env, ctl, k)
+        if name == "error" and self.cfg.get("display"):
+            p0 = Parser(toks, lo, hi)
+            kp = p0.parse_expr()
+            if kp[0] != "path" or kp[1][0] != "ErrorKind" or not p0.at(","):
+                unsupported("error!(..) of an unknown shape (line %d)" % line)
+            p0.next()
+            return self.tr_format_args(toks, p0.i, hi, line, env, ctl, lambda m, env1: k(
+                V("(mk_error %s %s)" % (coq_string(kp[1][-1]), m.term), "error"), env1))
         if name == "error":
             p = Parser(toks, lo, hi)
             parts = []
@@ -2625,7 +3369,25 @@ class Cx:
             sname = self.self_struct
         kept = getattr(self, "struct_kept", {}).get(sname)
         if kept is None:
-            unsupported("struct literal `%s` (only the function's own result type can be built)" % sname)
+            sv = self.as_value_type(("struct", sname))
+            given = dict(fields)
+            if sorted(given) != sorted(n for n, _ in sv[2]):
+                unsupported("struct literal `%s` does not list every field" % sname)
+            got = {}
+            order = [n for n, _ in fields]
+            ftys = dict(sv[2])
+
+            def go_sv(i, env1):
+                if i == len(order):
+                    items = [got[n] for n, _ in sv[2]]
+                    return k(V(items[0] if len(items) == 1 else "(" + ", ".join(items) + ")", sv), env1)
+                n = order[i]
+
+                def got_sv(v, env2):
+                    got[n] = self.coerce(v, ftys[n]).term
+                    return go_sv(i + 1, env2)
+                return self.tr_expr(given[n], env1, ftys[n], ctl, got_sv)
+            return go_sv(0, env)
         given = dict(fields)
         decl_fields = self.src.structs()[sname]
         if sorted(given) != sorted(n for n, _ in decl_fields):
@@ -2774,7 +3536,7 @@ Open Scope Z_scope.
 """
 
 
-def translate_group(src, requests, man):
+def translate_group(src, requests, man, ext=False):
     """requests: list of dicts (name, file, impl, fn, select, types, params, abstract).
     Returns the Coq text of the group; fills man[name] = {...}."""
     unit = Unit(src)
@@ -2810,6 +3572,10 @@ def translate_group(src, requests, man):
             if out.cfgs:
                 defs.append("Definition %s_cfgs : list string := [%s]." % (
                     name, "; ".join(coq_string(c) for c in out.cfgs)))
+            peeks = [o[1] for _, _, o in out.params if o[0] == "peek"]
+            if peeks:
+                # which stack slots the parameters <vm>_peek_<k> stand for (the parameters are positional)
+                defs.append("Definition %s_peeks : list Z := [%s]." % (name, "; ".join(str(x) for x in peeks)))
             entry.update({"status": "translated", "pure": out.pure,
                           "params": [g for g, _, _ in out.params], "result": out.result_gty(), "line": src_line})
         except Exception as ex:     # Unsupported, or an internal error of the translator: fail closed either way
@@ -2823,4 +3589,22 @@ def translate_group(src, requests, man):
                         % (entry["source"], msg.replace("*)", "* )"), name))
             entry.update({"status": "untranslatable", "reason": msg})
         man[name] = entry
-    return HEADER % ", ".join(files) + "\n" + "\n\n".join(defs) + "\n"
+    header = HEADER % ", ".join(files)
+    if ext:
+        # which FIELD each flattened parameter stands for (the parameters are positional; reading another field of the
+        # same type would otherwise give the same text up to the parameter's name)
+        rows = []
+        for rq in requests:
+            out = unit.by_name.get(rq["name"])
+            if out is None:
+                continue
+            pidx = {pt[1]: i for i, (pt, _) in enumerate(out.decl.params) if pt[0] == "p_id"}
+            fl = [".".join((o[1] if o[1] == "self" else "arg%d" % pidx.get(o[1], 99),) + tuple(o[2:]))
+                  for _, _, o in out.params if o[0] == "leaf" and len(o) > 2]
+            if fl:
+                rows.append("(%s, [%s])" % (coq_string(rq["name"]), "; ".join(coq_string(x) for x in fl)))
+        if rows:
+            defs.append("Definition r2g_fields : list (string * list string) :=\n  [%s]." % ";\n   ".join(rows))
+    if ext:
+        header = header.replace("From YV Require Import Num Utf8 R2G.", "From YV Require Import Num Utf8 R2G R2GStr.")
+    return header + "\n" + "\n\n".join(defs) + "\n"
